@@ -256,6 +256,8 @@ impl Store {
             }
             // cache.push(process)
             // cache.push_task_pri(&Arc::new(task), false)?;
+            #[cfg(feature = "verif")]
+            crate::verif::on_task_created(&task, "load");
             proc.push_task(Arc::new(task));
         }
 
